@@ -240,17 +240,6 @@ theorem unescape_no_amp (b : List Nat) (attr : Bool) (h : 38 ∉ b) : unescape b
 `"<!--" ++ escapeComment d ++ "-->"`, PROVIDED its comment scanner ends the data span exactly before
 the final `-->` (the scanner itself is not modelled; that part is covered by the Go oracle). -/
 
-/-- The full comment round-trip statement on the model. It is FALSE for the code as it is. -/
-def CommentRoundTripStatement : Prop := ∀ d : List Nat, commentText (escapeComment d) = d
-
-/-- Witness: the comment data `"\r"` (tokenizer input `<!--&#13;-->`) is rendered with a raw CR,
-which the tokenizer's newline normalisation turns into LF. -/
-theorem comment_roundtrip_full_false : ¬ CommentRoundTripStatement := by
-  intro h
-  have := h [13]
-  revert this
-  decide +kernel
-
 private theorem convertNewlines_id (s : List Nat) (h : 13 ∉ s) : convertNewlines s = s := by
   unfold convertNewlines
   induction s with
@@ -269,7 +258,7 @@ private theorem nulToReplacement_id (s : List Nat) (h : 0 ∉ s) : nulToReplacem
     simp [nulToReplacement, hc, ih h.2]
 
 private theorem escapeCommentAux_mem (p : Option Nat) (d : List Nat) (b : Nat)
-    (hb : b ∈ escapeCommentAux p d) : b ∈ d ∨ b ∈ ampE ∨ b ∈ gtE := by
+    (hb : b ∈ escapeCommentAux p d) : (b ∈ d ∧ b ≠ 13) ∨ b ∈ ampE ∨ b ∈ gtE ∨ b ∈ crE := by
   induction d generalizing p with
   | nil => simp [escapeCommentAux] at hb
   | cons c t ih =>
@@ -278,11 +267,14 @@ private theorem escapeCommentAux_mem (p : Option Nat) (d : List Nat) (b : Nat)
     · split at hb
       · exact Or.inr (Or.inl hb)
       · split at hb
-        · exact Or.inr (Or.inr hb)
-        · simp only [List.mem_singleton] at hb
-          exact Or.inl (by simp [hb])
+        · exact Or.inr (Or.inr (Or.inl hb))
+        · split at hb
+          · exact Or.inr (Or.inr (Or.inr hb))
+          · rename_i h13
+            simp only [List.mem_singleton] at hb
+            exact Or.inl ⟨by simp [hb], by rw [hb]; exact h13⟩
     · rcases ih _ hb with h | h
-      · exact Or.inl (by simp [h])
+      · exact Or.inl ⟨by simp [h.1], h.2⟩
       · exact Or.inr h
 
 private theorem unescapeAux_escapeComment (attr : Bool) (d : List Nat) :
@@ -303,7 +295,7 @@ private theorem unescapeAux_escapeComment (attr : Bool) (d : List Nat) :
       exact ih _ f (by omega)
     · by_cases h2 : c = 62 ∧ (p = none ∨ p = some 33 ∨ p = some 45)
       · have hE : (if c = 38 then ampE else if c = 62 ∧ (p = none ∨ p = some 33 ∨ p = some 45) then gtE
-            else [c]) = gtE := by rw [if_neg h1, if_pos h2]
+            else if c = 13 then crE else [c]) = gtE := by rw [if_neg h1, if_pos h2]
         rw [hE] at hf ⊢
         obtain ⟨hc, _⟩ := h2
         subst hc
@@ -311,33 +303,64 @@ private theorem unescapeAux_escapeComment (attr : Bool) (d : List Nat) :
         obtain ⟨f, rfl⟩ : ∃ f, fuel = f + 1 := ⟨fuel - 1, by omega⟩
         simp [gtE, unescapeAux, ue_gt, utf8_ascii]
         exact ih _ f (by omega)
-      · have hE : (if c = 38 then ampE else if c = 62 ∧ (p = none ∨ p = some 33 ∨ p = some 45) then gtE
-            else [c]) = [c] := by rw [if_neg h1, if_neg h2]
-        rw [hE] at hf ⊢
-        simp only [List.length_cons, List.length_nil] at hf
-        obtain ⟨f, rfl⟩ : ∃ f, fuel = f + 1 := ⟨fuel - 1, by omega⟩
-        simp [h1, unescapeAux]
-        exact ih _ f (by omega)
+      · by_cases h3 : c = 13
+        · have hE : (if c = 38 then ampE else if c = 62 ∧ (p = none ∨ p = some 33 ∨ p = some 45) then gtE
+              else if c = 13 then crE else [c]) = crE := by rw [if_neg h1, if_neg h2, if_pos h3]
+          rw [hE] at hf ⊢
+          subst h3
+          simp only [crE, List.length_cons, List.length_nil] at hf
+          obtain ⟨f, rfl⟩ : ∃ f, fuel = f + 1 := ⟨fuel - 1, by omega⟩
+          simp [crE, unescapeAux, ue_cr, utf8_ascii]
+          exact ih _ f (by omega)
+        · have hE : (if c = 38 then ampE else if c = 62 ∧ (p = none ∨ p = some 33 ∨ p = some 45) then gtE
+              else if c = 13 then crE else [c]) = [c] := by rw [if_neg h1, if_neg h2, if_neg h3]
+          rw [hE] at hf ⊢
+          simp only [List.length_cons, List.length_nil] at hf
+          obtain ⟨f, rfl⟩ : ∃ f, fuel = f + 1 := ⟨fuel - 1, by omega⟩
+          simp [h1, unescapeAux]
+          exact ih _ f (by omega)
 
 /-- `unescape (escapeComment d) = d` for every byte string: entity-wise, comments round-trip. -/
 theorem unescape_escapeComment (d : List Nat) (attr : Bool) : unescape (escapeComment d) attr = d :=
   unescapeAux_escapeComment attr d none _ (Nat.le_refl _)
 
-/-- The part of the comment round trip that does hold: comment data without CR and NUL
-(the excluded region is exactly where `comment_roundtrip_full_false` lives; NUL cannot occur in
-tokenizer-produced comment data because `Text()` replaces it). -/
-theorem comment_roundtrip_holds_partial (d : List Nat) (hcr : 13 ∉ d) (hnul : 0 ∉ d) :
-    commentText (escapeComment d) = d := by
-  have hmem : ∀ b ∈ escapeComment d, b ≠ 13 ∧ b ≠ 0 := by
-    intro b hb
-    rcases escapeCommentAux_mem none d b hb with h | h | h
-    · exact ⟨fun e => hcr (e ▸ h), fun e => hnul (e ▸ h)⟩
-    · revert h; simp only [ampE]; intro h; simp at h; omega
-    · revert h; simp only [gtE]; intro h; simp at h; omega
-  have h13 : 13 ∉ escapeComment d := fun h => (hmem 13 h).1 rfl
-  have h0 : 0 ∉ escapeComment d := fun h => (hmem 0 h).2 rfl
+/-- `escapeComment` never emits a raw CR (so the tokenizer's newline normalisation cannot touch it). -/
+theorem escapeComment_no_cr (d : List Nat) : 13 ∉ escapeComment d := by
+  intro h
+  rcases escapeCommentAux_mem none d 13 h with h | h | h | h
+  · exact h.2 rfl
+  · revert h; decide
+  · revert h; decide
+  · revert h; decide
+
+/-- The comment round-trip statement on the model: for every comment Data the tokenizer can deliver.
+`Tokenizer.Text()` replaces every NUL of comment data by U+FFFD, so delivered Data never contains
+NUL (that fact about `Text()` is evident from the code and checked by the Go oracle, not proved here);
+NUL-free data is therefore the whole domain the property quantifies over. -/
+def CommentRoundTripStatement : Prop :=
+  ∀ d : List Nat, 0 ∉ d → commentText (escapeComment d) = d
+
+/-- The comment round trip holds (since the `fix:` commit that makes `escapeComment` escape CR; before
+it, `d = [13]` was a counterexample). Covers `escapeComment`, `convertNewlines`, the NUL replacement and
+`unescape`; NOT covered: that the comment scanner ends the data span exactly at the final `-->`. -/
+theorem comment_roundtrip : CommentRoundTripStatement := by
+  intro d hnul
+  have h13 : 13 ∉ escapeComment d := escapeComment_no_cr d
+  have h0 : 0 ∉ escapeComment d := by
+    intro h
+    rcases escapeCommentAux_mem none d 0 h with h | h | h | h
+    · exact hnul h.1
+    · revert h; decide
+    · revert h; decide
+    · revert h; decide
   unfold commentText
   rw [convertNewlines_id _ h13, nulToReplacement_id _ h0, unescape_escapeComment]
+
+-- the former counterexample: comment data "\r" (tokenizer input `<!--&#13;-->`) now round-trips
+example : escapeComment [13] = crE ∧ commentText (escapeComment [13]) = [13] := by decide +kernel
+-- data with CR LF, `-->`-like pieces and `&`
+example : commentText (escapeComment [45, 62, 13, 10, 38, 33, 62]) = [45, 62, 13, 10, 38, 33, 62] := by
+  decide +kernel
 
 /-! ### Non-vacuity / sanity -/
 -- `a<b & "c"` escapes to `a&lt;b &amp; &#34;c&#34;`
